@@ -49,6 +49,17 @@ pub fn one_step(eng: &mut Eng, rng: &mut Rng, p: &Pools, mix: &Mix) {
         1 => {
             if !eng.all.is_empty() {
                 let ev = rng.pick(&eng.all).clone();
+                // now and then the re-submission is a re-signed copy (same id, other signature bytes) of an event that
+                // is currently stored: a duplicate like any other, and the stored bytes stay what they are
+                if rng.chance(1, 4) && eng.model.r.contains_key(&ev.sem.id) {
+                    let mut sem = ev.sem.clone();
+                    sem.sig = [0x77; 64];
+                    if let Some(twin) = Ev::new(sem) {
+                        eng.rep.count("resubmissions_with_another_signature");
+                        let _ = eng.store(&twin);
+                        return;
+                    }
+                }
                 let _ = eng.store(&ev);
             }
         }
@@ -550,6 +561,28 @@ pub fn c05(args: &Args) -> Report {
                     }
                     eng.rep.count("odd_constraint_name_queries");
                 }
+            }
+        }
+        // after the history: half of what is retrievable is removed (plain removal), then every plan is asked again -
+        // an event that is gone must be gone from every index that can serve a query
+        if !eng.aborted && i % 2 == 0 {
+            let ids: Vec<Id32> = eng.model.r.keys().cloned().collect();
+            // (the per-step state comparison belongs to other properties and would end the history at the first
+            // divergence; here the queries are what is judged)
+            eng.flags.verify_each_step = false;
+            for (k, id) in ids.iter().enumerate() {
+                if k % 2 == 0 && !eng.aborted {
+                    eng.remove(id);
+                }
+            }
+            for q in 0..14 {
+                if eng.aborted {
+                    break;
+                }
+                let plan = q % 7;
+                let f = if q < 7 { gen_filter_from_state(&mut rng, &eng, plan) } else { gen_filter(&mut rng, &p, &eng, plan) };
+                let _ = eng.check_query(&f, 0, (true, 0, 0), &["C05"], "after removing half of the events");
+                eng.rep.count("queries_after_bulk_removal");
             }
         }
         let nt = eng.model.r.len() >= 3;
